@@ -36,7 +36,7 @@ var realViolation int32
 
 func TestMain(m *testing.M) {
 	stats.Init("C11")
-	stats.Rule("random concurrent programs: constructor pair (all 24 constructors with their natural peer) over {inproc,tcp,ipc}; 2-6 goroutines x 5-40 ops from {Send, Recv, SendMsg, RecvMsg, SetOption/GetOption of every option the pattern supports with valid values, OpenContext+ops+Close, NewDialer/NewListener+Dial/Listen+Close, Pipe.Close, Socket.Close at a drawn position}; GOMAXPROCS drawn from {2,4,16}; race detector on. Also: optional silent raw connection throughout; (B) parked dials on 2-4 held listeners released in a drawn order. Non-trivial: >=2 goroutines touch the same socket and at least one mutates (option set, close, context open/close); distinct by the program text")
+	stats.Rule("random concurrent programs: constructor pair (all 24 constructors with their natural peer) over {inproc,tcp,ipc}; 2-6 goroutines x 5-40 ops from {Send, Recv, SendMsg, RecvMsg, SetOption/GetOption of every option the pattern supports with valid values, OpenContext+ops+Close, NewDialer/NewListener+Dial/Listen+Close, Pipe.Close, Socket.Close at a drawn position}; GOMAXPROCS drawn from {2,4,16}; race detector on. Also: optional silent raw connection throughout; (B) parked dials on 2-4 held listeners released in a drawn order. Non-trivial: >=2 goroutines touch the same socket and at least one mutates (option set, close, context open/close); distinct by the program text. Round 5: the same call (Dial, Listen, Close) on one dialer/listener/context/socket from 2-4 goroutines at one instant: exactly one succeeds")
 	stats.Assume("the race detector only sees executed interleavings: schedules are sampled, not enumerated; race reports are attributed to the program that was running when they appeared")
 	rc := m.Run()
 	stats.Flush()
